@@ -80,8 +80,8 @@ func c40more(r *core.Run) {
 				}
 			case *ssa.Call:
 				if _, ok := isBuiltinCall(x, "append"); ok && isSubInfoSlice(x.Call.Args[0]) {
-					if sl, ok := x.Call.Args[0].(*ssa.Slice); ok && sl.High != nil {
-						dst, what = sl.X, "append onto a truncated re-slice (overwrites the elements behind the cut)"
+					if base := truncatedView(x.Call.Args[0]); base != nil {
+						dst, what = base, "append onto a truncated re-slice (overwrites the elements behind the cut)"
 					}
 				}
 				if _, ok := isBuiltinCall(x, "copy"); ok && isSubInfoSlice(x.Call.Args[0]) {
@@ -195,4 +195,36 @@ func innerLoopOver(blk, h *ssa.BasicBlock, pred func(ssa.Instruction) bool) bool
 		}
 	}
 	return false
+}
+
+// truncatedView: v is (a phi of / a chain of appends onto) a re-slice x[:k] that cuts elements
+// off; returns x. Appending to such a view writes into x's backing array behind the cut.
+func truncatedView(v ssa.Value) ssa.Value {
+	seen := map[ssa.Value]bool{}
+	var rec func(v ssa.Value) ssa.Value
+	rec = func(v ssa.Value) ssa.Value {
+		if v == nil || seen[v] {
+			return nil
+		}
+		seen[v] = true
+		switch x := v.(type) {
+		case *ssa.Slice:
+			if x.High != nil {
+				return x.X
+			}
+			return rec(x.X)
+		case *ssa.Phi:
+			for _, e := range x.Edges {
+				if b := rec(e); b != nil {
+					return b
+				}
+			}
+		case *ssa.Call:
+			if _, ok := isBuiltinCall(x, "append"); ok {
+				return rec(x.Call.Args[0])
+			}
+		}
+		return nil
+	}
+	return rec(v)
 }
